@@ -645,11 +645,11 @@ pub proof fn lemma_gen_refl(o: &Compiler, f: &Compiler)
     }
 }
 
-// the two code generators not yet verified on their bodies: behind the common contract (assumption, listed)
+// the code generator not yet verified on its body: behind the common contract (assumption, listed)
 #[verifier::external_body]
 pub fn compile_match_expression_shim(c: &mut Compiler, e: MatchExpr) -> (r: Result<(), CompileError>) requires cwf(old(c)) ensures r is Ok ==> gen(old(c), final(c)) { unimplemented!() }
-#[verifier::external_body]
-pub fn compile_filter_statement_shim(c: &mut Compiler, e: FilterStmt) -> (r: Result<(), CompileError>) requires cwf(old(c)) ensures r is Ok ==> gen_s(old(c), final(c)) { unimplemented!() }
+#[verifier::external_body] pub fn filter_pattern_clone(p: &FilterPattern) -> (r: FilterPattern) ensures r == *p { unimplemented!() }
+#[verifier::external_body] pub fn rc_compiled_fn(instructions: Instructions, num_locals: usize, num_params: usize, line: usize) -> (r: Rc<CompiledFunction>) { unimplemented!() }
 pub broadcast proof fn lemma_gen_trans(a: &Compiler, b: &Compiler, c: &Compiler)
     requires #[trigger] gen(a, b), #[trigger] gen(b, c)
     ensures gen(a, c)
@@ -711,7 +711,7 @@ pub proof fn lemma_removed_starts(o: &Compiler, f: &Compiler)
 pub open spec fn entered(o: &Compiler, f: &Compiler) -> bool {
     &&& cwf(f) && f.scope_index == o.scope_index + 1 && f.scopes@.len() == o.scopes@.len() + 1
     &&& forall|j: int| 0 <= j < o.scopes@.len() ==> f.scopes@[j] == o.scopes@[j]
-    &&& code(f).len() == 0 && sc(f).loop_stack@.len() == 0 && sc(f).scope_depth == 0 && !sc(f).is_filter
+    &&& code(f).len() == 0 && sc(f).loop_stack@.len() == 0 && sc(f).scope_depth == 0
     &&& st_depth(&f.symtab) == st_depth(&o.symtab) + 1
     &&& (o.encoding_error is Some ==> f.encoding_error is Some)
 }
